@@ -107,9 +107,11 @@ def leak_frames(stderr):
 
 
 class Shard:
-    def __init__(self, k, ws, names, indices, seed, flags, workdir):
+    def __init__(self, k, ws, names, indices, seed, flags, workdir, mode="run"):
         self.k, self.ws, self.seed, self.flags, self.workdir = k, ws, seed, flags, workdir
         self.names = names
+        self.mode = mode
+        self.mismatches = []  # (index, text) of judged cases whose result differs from the model
         self.todo = list(indices)
         self.proc = None
         self.done = []      # (index, "returned"|"panicked")
@@ -123,7 +125,10 @@ class Shard:
         # contiguous arithmetic progressions are passed as a range, anything else by name
         self.out = open(os.path.join(self.workdir, "mem%02d.%d.out" % (self.k, self.n_starts)), "w+")
         self.err = open(os.path.join(self.workdir, "mem%02d.%d.err" % (self.k, self.n_starts)), "w+")
-        args = ["run"] + ["%d:%s" % (i, self.names[i]) for i in self.todo]
+        if self.mode == "judge":
+            args = ["judge"] + [str(i) for i in self.todo]
+        else:
+            args = ["run"] + ["%d:%s" % (i, self.names[i]) for i in self.todo]
         self.proc = subprocess.Popen(miri_cmd(self.ws, args), cwd=self.ws, env=miri_env(self.seed, self.flags),
                                      stdout=self.out, stderr=self.err)
         return True
@@ -143,6 +148,8 @@ class Shard:
             elif line.startswith("END "):
                 parts = line.split()
                 self.done.append((int(parts[1]), parts[2]))
+                if parts[2] == "MISMATCH":
+                    self.mismatches.append((int(parts[1]), line.split(" ", 3)[3] if len(parts) > 3 else ""))
                 in_flight = None
         finished = {i for i, _ in self.done}
         if rc == 0 and "DONE" in out:
@@ -165,9 +172,9 @@ class Shard:
         return bool(self.todo)
 
 
-def run_catalogue(ws, names, indices, seed, flags, workdir, njobs):
+def run_catalogue(ws, names, indices, seed, flags, workdir, njobs, mode="run", mismatches=None):
     os.makedirs(workdir, exist_ok=True)
-    shards = [Shard(k, ws, names, indices[k::njobs], seed, flags, workdir) for k in range(njobs)]
+    shards = [Shard(k, ws, names, indices[k::njobs], seed, flags, workdir, mode) for k in range(njobs)]
     running = []
     for s in shards:
         if s.start():
@@ -183,6 +190,8 @@ def run_catalogue(ws, names, indices, seed, flags, workdir, njobs):
     for s in shards:
         done.extend(s.done)
         failures.extend(s.failures)
+        if mismatches is not None:
+            mismatches.extend(s.mismatches)
     return done, failures
 
 
@@ -261,3 +270,85 @@ def replay_mem(path, rf):
         return 1
     D.log("HARNESS-ERROR replay produced a different diagnostic class (%s)" % kind)
     return 2
+
+
+# ----------------------------------------------------------------------------- judged cases (C15 / C17)
+
+JUDGE_KINDS = ["list_complement", "list_complete", "list_degree_sequence", "list_is_semicomplete", "list_union",
+               "map_union", "map_random_tournament", "map_erdos_renyi"]
+JUDGE_CASES = 8 * 4 * 7
+JUDGE_OPS = {"list_complement": "AdjacencyList::complement", "list_complete": "AdjacencyList::complete",
+             "list_degree_sequence": "AdjacencyList::degree_sequence", "list_is_semicomplete": "AdjacencyList::is_semicomplete",
+             "list_union": "AdjacencyList::union", "map_union": "AdjacencyMap::union",
+             "map_random_tournament": "AdjacencyMap::random_tournament", "map_erdos_renyi": "AdjacencyMap::erdos_renyi"}
+
+
+def judge_name(i):
+    return "judge/%s/n%d/t%d" % (JUDGE_KINDS[i % 8], 2 + (i // 32) % 7, 1 + (i // 8) % 4)
+
+
+def judge_lane(pid, tier, seed, workdir, njobs):
+    """The threaded operations on small inputs, real std threads scheduled by Miri (preemption at every
+    memory access, weak-memory emulation), results judged against the model. Returns (stats, violations)."""
+    ws = D.workspace()
+    build(ws)
+    kinds = range(8) if pid == "C17" else (6, 7)
+    cases = [i for i in range(JUDGE_CASES) if i % 8 in kinds]
+    names = {i: judge_name(i) for i in cases}
+    nseeds = 1 if tier == "quick" else 16
+    rates = ["0.1", "0.3", "0.05", "0.5"]
+    t0 = time.time()
+    ran, violations = 0, []
+    for k in range(nseeds):
+        ms = (seed + 101 * k) % (1 << 31)
+        flags = "-Zmiri-preemption-rate=%s" % rates[k % len(rates)]
+        mism = []
+        done, fails = run_catalogue(ws, names, cases, ms, flags, os.path.join(workdir, "judge%02d" % k), njobs, "judge", mism)
+        ran += len(done)
+        for i, text in mism:
+            kind = JUDGE_KINDS[i % 8]
+            violations.append({"case": i, "name": names[i], "class": "wrong_result_under_miri", "op": JUDGE_OPS[kind],
+                               "detail": text, "miri_seed": ms, "flags": flags})
+        for f in fails:
+            if f["index"] is None:
+                if f["kind"] == "leak":
+                    for where in f.get("leaks", []):
+                        violations.append({"case": None, "name": None, "class": "leak", "op": where, "detail": "Miri: memory leaked, allocated in %s" % where, "miri_seed": ms, "flags": flags})
+                else:
+                    D.log("HARNESS-ERROR Miri ended outside any judged case: %s" % f["message"])
+                    raise SystemExit(2)
+                continue
+            kind = JUDGE_KINDS[f["index"] % 8]
+            violations.append({"case": f["index"], "name": names[f["index"]], "class": f["kind"], "op": JUDGE_OPS[kind],
+                               "detail": "%s at %s" % (f["message"], f["location"]), "miri_seed": ms, "flags": flags})
+    stats = {"judged_case_executions": ran, "cases": len(cases), "miri_seeds": nseeds, "preemption_rates": rates[:nseeds],
+             "wall_s": round(time.time() - t0, 1),
+             "what": "threaded operations on inputs of order 2..8 at 1..4 simulated CPUs, real std threads scheduled by "
+                     "Miri with preemption and weak-memory emulation, results judged against the model"}
+    return stats, violations
+
+
+def write_judge_replay(pid, v):
+    os.makedirs(D.REPLAYS, exist_ok=True)
+    path = os.path.join(D.REPLAYS, "%s-judge-%s-s%d.json" % (pid, str(v["case"]), v["miri_seed"]))
+    sig = "%s %s miri" % (v["class"], v["op"])
+    json.dump({"property": pid, "engine": "simmem-judge", "case": v["case"], "name": v["name"], "miri_seed": v["miri_seed"],
+               "miri_flags": v["flags"], "violation": {"class": v["class"], "op": v["op"], "signature": sig, "detail": v["detail"]},
+               "minimised": True, "note": "judged cases are small by construction (order <= 8, <= 4 CPUs)"}, open(path, "w"), indent=1)
+    return path, sig
+
+
+def replay_judge(path, rf):
+    ws = D.workspace()
+    build(ws)
+    p = subprocess.run(miri_cmd(ws, ["judge", str(rf["case"])]), cwd=ws, env=miri_env(rf["miri_seed"], rf.get("miri_flags", "")),
+                       stdout=subprocess.PIPE, stderr=subprocess.PIPE, text=True)
+    bad = p.returncode != 0 or "MISMATCH" in p.stdout
+    if bad:
+        kind, msg, loc = parse_diag(p.stderr) if p.returncode != 0 else ("wrong_result_under_miri", [l for l in p.stdout.splitlines() if "MISMATCH" in l][0], None)
+        D.log("REPLAYED class=%s case=%s detail=%s" % (kind, rf["name"], msg))
+        D.log("REPRODUCED property=%s signature=\"%s\"" % (rf["property"], rf["violation"]["signature"]))
+        D.log("VIOLATION property=%s replay=%s" % (rf["property"], path))
+        return 1
+    D.log("NOT-REPRODUCED property=%s case=%s" % (rf["property"], rf["name"]))
+    return 0
